@@ -63,7 +63,7 @@ func run(c *lib.Ctx) error {
 
 	// ---------------------------------------------------------------- M and the TLC side of G run in the
 	// background (they are separate processes) while the real code is driven in this process
-	maxN := c.Pick(2, 4)
+	maxN := 4
 	all := `{"ok", "break", "fail"}`
 	var bg sync.WaitGroup
 	var bgMu sync.Mutex
@@ -95,19 +95,26 @@ func run(c *lib.Ctx) error {
 		}
 		return nil
 	})
-	background(func() error {
-		r, err := c.TLC(fmt.Sprintf("MCPeach repaired n<=%d", maxN), lib.TLCRun{Dir: dir, Module: "MCPeach", Workers: c.Pick(2, 6), Timeout: 14 * time.Minute, HeapGB: 12,
-			Files: map[string][]byte{"MCPeach.cfg": mcCfg(maxN, 1, "{0, 1, 2}", `{"peach", "runpar"}`, all, "{TRUE}", true)}})
-		if err != nil {
-			return err
+	repaired := func(n int, live bool) func() error {
+		return func() error {
+			r, err := c.TLC(fmt.Sprintf("MCPeach repaired n<=%d liveness=%v", n, live), lib.TLCRun{Dir: dir, Module: "MCPeach", Workers: 4, Timeout: 14 * time.Minute, HeapGB: 12,
+				Files: map[string][]byte{"MCPeach.cfg": mcCfg(n, 1, "{0, 1, 2}", `{"peach", "runpar"}`, all, "{TRUE}", live)}})
+			if err != nil {
+				return err
+			}
+			if r.ErrKind != "" {
+				return lib.Infra("the REPAIRED peach model violates %s %s — the model must be re-examined:\n%s", r.ErrKind, r.ErrName, r.ErrTrace)
+			}
+			c.Logf("repaired model n<=%d: %d distinct states, no error", n, r.Distinct)
+			c.Set(fmt.Sprintf("model_repaired_states_n%d", n), r.Distinct)
+			return nil
 		}
-		if r.ErrKind != "" {
-			return lib.Infra("the REPAIRED peach model violates %s %s — the model must be re-examined:\n%s", r.ErrKind, r.ErrName, r.ErrTrace)
-		}
-		c.Logf("repaired model: %d distinct states, no error", r.Distinct)
-		c.Set("model_repaired_states", r.Distinct)
-		return nil
-	})
+	}
+	// safety + termination for n <= 3 (124 k states); thorough adds safety for n <= 4 (2.8 M states)
+	background(repaired(3, true))
+	if c.Thorough() {
+		background(repaired(maxN, false))
+	}
 	// as-is configuration: its counterexamples are candidates
 	asis := []string{`{"ok", "break"}`, `{"ok", "fail"}`}
 	if c.Quick() {
